@@ -152,6 +152,29 @@ def c03(out, tv):
             continue
         if not _eq(again, val):
             v.append(('not-a-fixed-point', f'{key} stored {val!r} but its definition yields {again!r} on the final inputs/values'))
+    # the same with FRESH copies of the form objects: a definition that keeps something of its own between evaluations (a list
+    # filled "the first time", a counter, a table it edits) agrees with itself but not with a clean copy of the form
+    fresh_forms = {}
+    for name, fo in (out.solver.forms.items() if out.solver is not None else ()):
+        try:
+            fresh_forms[name] = type(fo)(instance=fo.instance()) if fo.instance() else type(fo)()
+        except BaseException:  # noqa
+            pass
+    for key, val in fv.items():
+        ff = fresh_forms.get(key.split('.', 1)[0])
+        if ff is None:
+            continue
+        fld2 = next((f for f in ff.fields() if f.name() == key), None)
+        if fld2 is None:
+            continue
+        try:
+            again = fld2.value(FM.FormAccessor(fresh_store, ff), FM.FormAccessor(vs, ff))
+        except BaseException:  # noqa  (a clean copy may legitimately need the solver it is not attached to)
+            continue
+        n += 1
+        if not _eq(again, val):
+            v.append(('not-a-fixed-point-on-a-fresh-form', f'{key} stored {val!r}; the same definition on a fresh copy of the form yields {again!r} on the final inputs/values (the definition carries state between evaluations)'))
+            break
     # the same, over the values as the *returned solution* carries them (each value
     # printed by its line's to_string and re-read by from_string, which is what
     # solution() hands to its readers)
